@@ -1081,8 +1081,8 @@ class Logic:
             return None
         from .skel import quantified
         g = comp.generators[0]
-        vs = [self.canon.c(x, fr) for x in ast.walk(g.target) if isinstance(x, ast.Name)]
-        it = self.canon.c(g.iter, fr)
+        vs = [v for v in (self.canon.c(x, fr) for x in ast.walk(g.target) if isinstance(x, ast.Name)) if v not in SINGLETONS]
+        it = self._iter_c(g.iter, fr)
         cond = g.ifs[0] if len(g.ifs) == 1 else ast.BoolOp(op=ast.And(), values=list(g.ifs))
         if pol:      # empty: every element fails the filter
             alts = self.dnf(cond, fr, False, 1)
@@ -1105,7 +1105,8 @@ class Logic:
             return self.dnf(ast.BoolOp(op=ast.Or(), values=[
                 ast.BoolOp(op=ast.And(), values=[e.test, e.body]),
                 ast.BoolOp(op=ast.And(), values=[ast.UnaryOp(op=ast.Not(), operand=e.test), e.orelse])]), fr, pol, depth)
-        if isinstance(e, ast.Call) and depth > 0 and fr is not None:
+        if isinstance(e, ast.Call) and fr is not None and (depth > 0 or (
+                isinstance(e.func, ast.Name) and e.func.id in ('any', 'all', 'bool'))):
             r = self.call_dnf(e, fr, pol, depth)
             if r is not None:
                 return r
@@ -1179,17 +1180,18 @@ class Logic:
                 parts.append(ast.Compare(left=left, ops=[op], comparators=[r]))
                 left = r
             return self.dnf(ast.BoolOp(op=ast.And(), values=parts), fr, pol, depth)
+        shape = self._emptiness_shape(e, fr, pol)
+        if shape is not None:
+            r = self._empty_comp_dnf(shape[0], fr, shape[1], depth)
+            if r is not None:
+                return r
         cd = self._count_dnf(e, fr, pol)
         if cd is not None:
             return cd
         cd = self._lensum_dnf(e, fr, pol)
         if cd is not None:
             return cd
-        shape = self._emptiness_shape(e, fr, pol)
         if shape is not None:
-            r = self._empty_comp_dnf(shape[0], fr, shape[1], depth)
-            if r is not None:
-                return r
             parts = self._concat_parts(shape[0], fr)
             if len(parts) > 1 and (_is_len(e) or isinstance(e, ast.Compare) or all(
                     isinstance(x, (ast.Attribute, ast.Subscript, ast.List, ast.ListComp)) for x in parts)):
@@ -1353,16 +1355,31 @@ class Logic:
                 and comp.generators[0].ifs):
             return None
         g = comp.generators[0]
-        vs = [self.canon.c(x, fr) for x in ast.walk(g.target) if isinstance(x, ast.Name)]
+        vs = [v for v in (self.canon.c(x, fr) for x in ast.walk(g.target) if isinstance(x, ast.Name)) if v not in SINGLETONS]
         cond = g.ifs[0] if len(g.ifs) == 1 else ast.BoolOp(op=ast.And(), values=list(g.ifs))
         # empty: every element fails the filter; non-empty: some element passes it
         return self._instantiate(g, vs, cond, fr, pol, not pol, depth)
 
+    def _iter_c(self, it, fr):
+        """canonical iterable of a quantifier: D.items() and D.keys() range over D"""
+        if isinstance(it, ast.Call) and isinstance(it.func, ast.Attribute) and it.func.attr in ('items', 'keys') \
+                and not it.args:
+            return self.canon.c(it.func.value, fr)
+        return self.canon.c(it, fr)
+
     def _instantiate(self, g, vs, body, fr, universal, body_pol, depth):
         """a quantifier whose domain is a known set of singleton objects (the hot and cold tier,
         ...) is the conjunction / disjunction of its instances"""
-        from .skel import elem_singletons, _reorder_eq
+        from .skel import elem_singletons, _reorder_eq, _mentions
         import itertools
+        names = [x for x in ast.walk(g.target) if isinstance(x, ast.Name)]
+        if names and len(vs) < len(names):
+            # some loop variables are themselves singletons (for k, tier in self.hot.items()): the
+            # container is one of the simulation's fixed, non-empty ones; literals that mention no
+            # remaining variable hold as they stand
+            alts = self.dnf(body, fr, body_pol, depth)
+            if all(not any(_mentions(l.atom, v) for v in vs) for a in alts for l in a):
+                return alts
         if len(vs) != 1:
             return None
         sing = sorted(elem_singletons(self.canon, g.iter, fr))
@@ -1396,8 +1413,8 @@ class Logic:
             from .skel import quantified
             comp = call.args[0]
             g = comp.generators[0]
-            vs = [self.canon.c(x, fr) for x in ast.walk(g.target) if isinstance(x, ast.Name)]
-            it = self.canon.c(g.iter, fr)
+            vs = [v for v in (self.canon.c(x, fr) for x in ast.walk(g.target) if isinstance(x, ast.Name)) if v not in SINGLETONS]
+            it = self._iter_c(g.iter, fr)
             body = comp.elt
             for c_ in g.ifs:       # all(P for x if C) == all(not C or P); any(P for x if C) == any(C and P)
                 if fn.id == 'all':
@@ -1418,6 +1435,23 @@ class Logic:
             alts = self.dnf(body, fr, not inner_pol, depth)
             if len(alts) == 1 and len(alts[0]) == 1:
                 return [[quantified('exists', vs, it, alts[0][0])]]
+            if alts and len(alts) <= 6:
+                # exists x: (A and B(x)) or C(x)  ==  (A and exists x: B(x)) or exists x: C(x)
+                from .skel import _mentions
+                out = []
+                for conj in alts:
+                    dep = [l for l in conj if any(_mentions(l.atom, v) for v in vs)]
+                    ind = [l for l in conj if l not in dep]
+                    if len(dep) == 1:
+                        out.append(ind + [quantified('exists', vs, it, dep[0])])
+                    elif not dep:
+                        out.append(ind + [Lit('empty(%s)' % it, False)])
+                    else:
+                        qs = sorted(repr(quantified('exists', vs, it, l))[len('exists %s in %s: ' % (
+                            ','.join('$%d' % (i + 1) for i in range(len(vs))), it)):] for l in dep)
+                        out.append(ind + [Lit('exists %s in %s: %s' % (
+                            ','.join('$%d' % (i + 1) for i in range(len(vs))), it, ' & '.join(qs)), True)])
+                return out
             return [[Lit('exists %s in %s: %s' % (','.join(vs), it, self.canon.c(body, fr)), not inner_pol)]]
         if isinstance(fn, ast.Name) and fn.id in ('all', 'any'):
             return None
